@@ -14,3 +14,16 @@ def c09_nested_outside_only(case, what):
     from harness.gen import a06_connect as G
     c = {k: v for k, v in case.items() if k != "text"}
     return bool(G.open_nested(G.instantiate(c)))
+
+
+@known_predicate
+def c09_array_partly_connected(case, what):
+    """C09-F2: the *only* deviation from the reference is a missing `f = 0` for flows of elements of an
+    array of components that occur in no connect clause while the same connector of another element
+    of that array does.  The checker uses this exact message only when every failed reference
+    equation is of that kind; the case must really contain such a partly connected array."""
+    if not what.startswith("flow of an unconnected element of an array of components is not set to zero"):
+        return False
+    from harness.gen import a06_connect as G
+    c = {k: v for k, v in case.items() if k != "text"}
+    return bool(G.partial_arrays(c))
